@@ -46,11 +46,14 @@ impl Sm2PublicKey {
         compressed: bool,
         model: Sm2Model,
     ) -> Sm2Result<Vec<u8>> {
-        let cipher = self.encrypt(msg, compressed, model).unwrap();
-        let x = BigUint::from_bytes_be(&cipher[0..32]);
-        let y = BigUint::from_bytes_be(&cipher[32..64]);
-        let sm3 = &cipher[64..96];
-        let secret = &cipher[96..];
+        // GM/T 0009: SM2Cipher ::= SEQUENCE { x INTEGER, y INTEGER, hash OCTET STRING, cipher OCTET STRING }
+        // with (x, y) = C1, hash = C3, cipher = C2; the raw layout preferences do not apply to this form
+        let _ = (compressed, model);
+        let cipher = self.encrypt(msg, false, Sm2Model::C1C3C2)?;
+        let x = BigUint::from_bytes_be(&cipher[1..33]);
+        let y = BigUint::from_bytes_be(&cipher[33..65]);
+        let sm3 = &cipher[65..97];
+        let secret = &cipher[97..];
         Ok(yasna::construct_der(|writer| {
             writer.write_sequence(|writer| {
                 writer.next().write_biguint(&x);
@@ -266,15 +269,22 @@ impl Sm2PrivateKey {
                 return Ok((x, y, sm3, secret));
             })
         })
-        .unwrap();
+        .map_err(|_| Sm2Error::InvalidDer)?;
         let x = BigUint::to_bytes_be(&x);
         let y = BigUint::to_bytes_be(&y);
-        let mut cipher: Vec<u8> = vec![];
+        if x.len() > 32 || y.len() > 32 || sm3.len() != 32 {
+            return Err(Sm2Error::InvalidDer);
+        }
+        // rebuild 04 || x || y || C3 || C2 with the coordinates left-padded to 32 bytes
+        let _ = (compressed, model);
+        let mut cipher: Vec<u8> = vec![0x04];
+        cipher.extend_from_slice(&vec![0u8; 32 - x.len()]);
         cipher.extend_from_slice(&x);
+        cipher.extend_from_slice(&vec![0u8; 32 - y.len()]);
         cipher.extend_from_slice(&y);
         cipher.extend_from_slice(&sm3);
         cipher.extend_from_slice(&secret);
-        self.decrypt(&cipher, compressed, model)
+        self.decrypt(&cipher, false, Sm2Model::C1C3C2)
     }
 
     /// Decrypt the given message.
